@@ -354,7 +354,7 @@ fn nontrivial(conf: &QConf, case: &QCase) -> bool {
 fn case_strategy(max_total: usize, with_tape: bool) -> impl Strategy<Value = QCase> {
     (
         0..CONFS.len(),
-        proptest::collection::vec((0u8..3, any::<bool>(), 0u16..1000), 1..=max_total),
+        proptest::collection::vec((0u8..3, proptest::bool::weighted(0.7), 0u16..1000), 1..=max_total),
         proptest::collection::vec(0u8..3, max_total),
         proptest::collection::vec(any::<u8>(), 0..600),
     )
